@@ -130,6 +130,18 @@ CONFIG = {
             "malformed values (wrong JSON type, unparsable) that the loader ignores are not counted as violations; accepted configurations must still validate and round-trip",
         ],
     },
+    "C16": {
+        "pkg": "c16",
+        "regress": "^TestRegress",
+        "legs": [
+            {"run": "^TestConnector$", "quick": (400, 16), "thorough": (15000, 16)},
+        ],
+        "floors": {"connector": {"nontrivial": 2000, "already-pinned": 100, "used-update": 50, "stall": 30, "unpin-absent": 100, "slow-progress": 50}},
+        "assumptions": [
+            "the fake daemon follows go-ipfs: pin ls with a type filter answers 'not pinned' for a pin of another type, direct over recursive is refused, pin rm of an absent or indirect pin answers the pinner's 'not pinned' message, errors after the response started arrive in the X-Stream-Error trailer",
+            "pin timeout 150 ms; a stalled pin must fail within 10 s; slow but steady progress (every 50 ms for 300 ms) must succeed",
+        ],
+    },
     "C08": {
         "pkg": "c08",
         "regress": "^TestRegress",
